@@ -650,6 +650,96 @@ SPECS.append(FucSpec(
            'the declared conversion error (ValueError from int()) can escape to the dispatcher'))
 
 
+# ----------------------------------------------------------------------------- C14: the error path ends in exactly one response
+# A conversion error inside _on_read (ValueError from int() of Content-Length / port) reaches the dispatcher, which fires
+# `exception` (C04: exactly one per raising handler, loop goes on); _on_exception turns the failed `read` into one httperror with a
+# fresh 500 response; _on_httperror turns every httperror into exactly one response event (whose bytes are C15's business).
+def ex_setup(I):
+    self = obj(I, 'self', 'HTTP')
+    sock = obj(I, 'sock', 'socket')
+    I.assume(isinst_fn('socket', sock.t))
+    data = sym(I, 'data', Bytes)
+    g = I.st.ghost
+    g['FEVENT'] = VCons('read', [sock, data])
+    g['EVALUE'] = VExc('ValueError', [VStr('invalid literal for int()')])
+    etype, tb = VClass('ValueError'), I.st.fresh_ref('traceback')
+    return {'self': self, 'args': VTuple([etype, g['EVALUE'], tb]), 'kwargs': VCDict({'fevent': g['FEVENT'], 'handler': NONE})}
+
+
+def isinst_fn(name, t):
+    return core.fn('isinst_' + name, core.RefSort(), z3.BoolSort())(t)
+
+
+def ex_post(I, outcome, ctx):
+    kind, v = outcome
+    if kind == 'raise':
+        I.oblige('no_escape', z3.BoolVal(False), detail='escaping %s' % v.cls)
+        return
+    cover(I, 'return')
+    fired = log(I, 'FIRED')
+    errs = [e for e in fired if isinstance(e, VCons) and e.tag == 'httperror']
+    I.oblige('failed_read_answered_by_exactly_one_httperror', z3.BoolVal(len(errs) == 1 and len(fired) == 1),
+             detail='a conversion error while reading a request must end in one error response: fired %r' % (fired,))
+    if len(errs) == 1:
+        e = errs[0]
+        reqs = log(I, 'REQUESTS')
+        ok = len(e.args) >= 2 and isinstance(e.args[0], VRef) and isinstance(e.args[1], VRef) and len(reqs) == 1
+        I.oblige('error_response_is_for_that_connection', z3.BoolVal(ok) if not ok else z3.And(
+            e.args[0].t == reqs[0].t, I.field(reqs[0], 'sock').t == I.st.ghost['FEVENT'].args[0].t, I.field(e.args[1], 'request').t == reqs[0].t))
+        st = I.st.ghost.get('RESPONSE_STATUS')
+        I.oblige('error_response_is_a_500', z3.BoolVal(st is not None) if st is None else st == 500)
+
+
+def s_Response_status(I, recv, args, kw):
+    r = s_Response(I, recv, args, kw)
+    if len(args) >= 3:
+        I.st.ghost['RESPONSE_STATUS'] = lib.unopt(I, args[2]).t
+    return r
+
+
+SPECS.append(FucSpec(
+    'C14', HTTP, 'HTTP._on_exception', ex_setup, ex_post, name='HTTP._on_exception[failed read]', fields=P_FIELDS,
+    calls={'self.fire': s_fire, 'httperror': ev('httperror'), 'wrappers.Request': s_Request, 'wrappers.Response': s_Response_status},
+    attr_hooks={'fevent.value.parent.event': lambda I: I.st.ghost['FEVENT']},
+    env={'response': VClass('response'), 'request': VClass('request'), 'socket': VClass('socket'), 'HTTPException': VClass('HTTPException')},
+    cover=['return'],
+    clause='_on_exception for a failed read(sock, data): exactly one httperror carrying a fresh request/500 response pair for that socket'))
+
+
+def he_setup(I):
+    self = obj(I, 'self', 'HTTP')
+    req, res = obj(I, 'req', 'Request'), obj(I, 'res', 'Response')
+    event = VCons('httperror', [req, res])
+    return {'self': self, 'event': event, 'req': req, 'res': res, 'code': sym(I, 'code', Opt(Int)), 'kwargs': VCDict({})}
+
+
+def he_post(I, outcome, ctx):
+    kind, v = outcome
+    if kind == 'raise':
+        I.oblige('no_escape', z3.BoolVal(False), detail='escaping %s' % v.cls)
+        return
+    cover(I, 'return')
+    fired = log(I, 'FIRED')
+    rs = [e for e in fired if isinstance(e, VCons) and e.tag == 'response']
+    I.oblige('every_httperror_becomes_exactly_one_response', z3.BoolVal(len(rs) == 1 and len(fired) == 1))
+    for e in rs:
+        ok = len(e.args) == 1 and isinstance(e.args[0], VRef)
+        I.oblige('the_response_sent_is_the_errors_response', z3.BoolVal(ok) if not ok else e.args[0].t == ctx['args']['res'].t)
+    I.oblige('body_is_the_rendered_error', z3.BoolVal(len(log(I, 'BODY_SET')) == 1))
+
+
+def he_body_hook(I, o, v):
+    log(I, 'BODY_SET').append((o, v))
+    return True
+
+
+SPECS.append(FucSpec(
+    'C14', HTTP, 'HTTP._on_httperror', he_setup, he_post, fields=P_FIELDS,
+    calls={'self.fire': s_fire, 'response': ev('response'), 'str': lambda I, r, a, k: VStr(core.fresh('rendered_error', S()))},
+    setattr_hooks={'body': he_body_hook}, cover=['return'],
+    clause='_on_httperror: the rendered error becomes the body of the given response and exactly one response event is fired for it'))
+
+
 # C14's guarantee ("for arbitrary bytes: wait or one valid error response, never a request for an incomplete or rejected message")
 # rests on the parser honouring the contract _on_read uses it by.  The parser's own contracts (written for C13) are therefore
 # obligations of C14 as well: a change inside the parser that breaks one of them is reported under both properties.
